@@ -236,7 +236,7 @@ int hx_mutate_main(int argc, char **argv) {
     if (argc < 1) return 2;
     uint64_t seed = 1, n = 1000, start = 0;
     unsigned shard = 0, nshards = 1;
-    int keep_per_key = 3, touch_all = 0;
+    int keep_per_key = 3, touch_all = 0, unguided = 0;
     const char *outdir = NULL, *sigfile = NULL;
     for (int i = 1; i < argc; i++) {
         if (!strcmp(argv[i], "--n") && i + 1 < argc) n = strtoull(argv[++i], NULL, 0);
@@ -248,6 +248,7 @@ int hx_mutate_main(int argc, char **argv) {
         else if (!strcmp(argv[i], "--sigfile") && i + 1 < argc) sigfile = argv[++i];
         else if (!strcmp(argv[i], "--start") && i + 1 < argc) start = strtoull(argv[++i], NULL, 0);
         else if (!strcmp(argv[i], "--touch-all") ) touch_all = 1;
+        else if (!strcmp(argv[i], "--unguided")) unguided = 1;
     }
     hx_batch corpus;
     if (hx_batch_load(argv[0], &corpus) != 0 || corpus.ncases == 0) { fprintf(stderr, "hx mutate: cannot load corpus %s\n", argv[0]); return 2; }
@@ -259,11 +260,19 @@ int hx_mutate_main(int argc, char **argv) {
     struct { char key[64]; int n; } keys[256];
     int nkeys = 0;
     hx_buf sample = { 0 };
+    /* coverage feedback (asancov build): mutated cases that reached new edge-map cells are kept in a pool and used as
+     * mutation bases for a third of the later cases */
+    enum { POOLMAX = 4096 };
+    hx_case *pool = calloc(POOLMAX, sizeof(hx_case));
+    uint32_t npool = 0;
+    uint64_t promoted = 0, from_pool = 0;
+    extern uint64_t hx_edge_new, hx_edge_cells;
     for (uint64_t k = shard; k < n; k += nshards) {
         if (k < start) continue;
         rs = seed * 0x9e3779b97f4a7c15ULL ^ (k * 0xd1342543de82ef95ULL + 12345);
         rnd();
         const hx_case *src = &corpus.cases[rn((uint32_t) corpus.ncases)];
+        if (npool > 0 && k >= corpus.ncases && rn(3) == 0) { src = &pool[rn(npool)]; from_pool++; }
         hx_case c;
         hx_case_copy(&c, src);
         c.id = (uint32_t) k;
@@ -277,9 +286,21 @@ int hx_mutate_main(int argc, char **argv) {
         hx_current_case = &c;
         alarm(120);
         if (touch_all) c.cfg[CF_DUMP] = HX_DUMP_TX | HX_DUMP_BODY | HX_DUMP_EVENTS | HX_DUMP_LOG;
+        uint64_t edges_before = hx_edge_new;
         hx_run(&c, &r);
         alarm(0);
         hx_current_case = NULL;
+        if (hx_edge_new != edges_before && nm > 0 && !unguided) {
+            size_t bytes = 0;
+            for (uint32_t q = 0; q < c.nops; q++) bytes += c.ops[q].len;
+            if (bytes <= (1u << 16) && c.nops <= 512) {
+                uint32_t slot = npool < POOLMAX ? npool++ : rn(POOLMAX);
+                if (pool[slot].ops) hx_case_free_ops(&pool[slot]);
+                hx_case_copy(&pool[slot], &c);
+                pool[slot].cfg[CF_DUMP] = 0;
+                promoted++;
+            }
+        }
         hx_stats_add(&tot, &r.st);
         /* memcheck runs: fold every byte of the canonical dump (every user-visible field the library produced) into the
          * behaviour signature, whose use as a hash-set key makes control flow depend on it, so that a field
@@ -324,12 +345,15 @@ int hx_mutate_main(int argc, char **argv) {
     }
     hx_buf sb = { 0 };
     hx_stats_json(&sb, &tot);
-    printf("S {\"evaluations\":%llu,\"distinct_nontrivial\":%llu,\"violating\":%llu,\"keys\":{", (unsigned long long) tot.runs, (unsigned long long) nontrivial, (unsigned long long) violating);
+    printf("S {\"evaluations\":%llu,\"distinct_nontrivial\":%llu,\"violating\":%llu,\"edge_cells\":%llu,\"promoted\":%llu,\"from_pool\":%llu,\"keys\":{", (unsigned long long) tot.runs, (unsigned long long) nontrivial,
+           (unsigned long long) violating, (unsigned long long) hx_edge_cells, (unsigned long long) promoted, (unsigned long long) from_pool);
     for (int q = 0; q < nkeys; q++) printf("%s\"%s\":%d", q ? "," : "", keys[q].key, keys[q].n);
     printf("},\"samples\":[%s],\"stats\":%s}\n", sample.p ? sample.p : "", sb.p);
     hb_free(&sb);
     hb_free(&sample);
     free(sigset); sigset = NULL; sigcap = sigcount = 0;
+    for (uint32_t q = 0; q < npool; q++) hx_case_free_ops(&pool[q]);
+    free(pool);
     hx_batch_free(&corpus);
     return 0;
 }
